@@ -58,11 +58,6 @@ Definition contents_prod (p : N) : bool :=
 (* producers whose href is not built by linker.taglink *)
 Definition raw_prod (p : N) : bool := existsb (N.eqb p) [P_hierarchy; P_childlist; P_alldocs; P_corpus; P_inventory].
 
-(* the root listings (moduleIndex, index.html) are safe when they filter on visibility or no root is hidden *)
-Definition roots_guard (tbl : table) (r : registry) : Prop :=
-  (l_visible (t_modindex_roots tbl) = true /\ l_visible (t_index_roots tbl) = true) \/
-  (forall o, In o (r_roots r) -> visible r o = true).
-
 (* producers named by C12: member tables, member details, sidebar, module index, search documents *)
 Definition marked_prod (p : N) : bool :=
   existsb (N.eqb p) [P_sidebar_item; P_main_table; P_pkginit; P_base_table; P_childlist; P_module_index; P_alldocs].
